@@ -56,7 +56,7 @@ def item(child):
 
 leaf = st.lists(st.tuples(sep, st.just(('w',))), min_size=1, max_size=3)
 flow = st.recursive(leaf, lambda c: st.lists(st.tuples(sep, item(c)), min_size=1, max_size=4), max_leaves=12)
-doc_s = st.tuples(flow, st.integers(0, 5), st.sampled_from([None, None, 'german', 'russian', 'french']))
+doc_s = st.tuples(flow, st.integers(0, 5), st.sampled_from([None, None, 'german', 'russian', 'french', 'cls:german:', 'cls:french:shorthands=off', 'cls:russian:math=normal', 'cls:german:french']))
 
 
 class M:
@@ -181,12 +181,24 @@ def rend(m, fl, first=False):
                 m.nested = True
 
 
+def apply_babel(m, babel):
+    """main language by package option, or by class option with babel loaded with other / further options
+    (the last language among class options + package options wins)"""
+    if not babel:
+        return
+    if babel.startswith('cls:'):
+        _, cl, po = babel.split(':')
+        m.src += '\\documentclass[%s]{article}\n\\usepackage%s{babel}\n' % (cl, '[%s]' % po if po else '')
+        m.stack[-1] = LM[po] if po in LM else LM[cl]
+    else:
+        m.src += '\\usepackage[%s]{babel}\n' % babel
+        m.stack[-1] = LM[babel]
+
+
 def check(doc):
     fl, thresh, babel = doc
     m = M('en-GB')
-    if babel:
-        m.src += '\\usepackage[%s]{babel}\n' % babel
-        m.stack[-1] = LM[babel]
+    apply_babel(m, babel)
     rend(m, fl, True)
     src = m.src + '\n'
     case = {'doc': doc, 'src': src}
